@@ -716,7 +716,7 @@ static const char *static_gap(const cfg_t *c)
     /* tlsSelectKeys.c chooseFromLoadedKeys()/peerSupportsSigAlg() only know PKCS#1 and ECDSA certificate signatures: a client
        identity whose chain is signed with RSASSA-PSS is never selected and an empty Certificate is sent (legal, RFC 8446 4.4.2.3);
        the same key works as a TLS 1.3 server credential and OpenSSL's PSS client certificate is accepted by a MatrixSSL server */
-    if (s->tls13 && c->role == R_MXC && c->cauth == CT_PSS) return "mx_client_never_selects_rsa_pss_signed_id";
+    if (s->tls13 && c->role == R_MXC && c->cauth == CT_PSS) return "mx_client_skips_rsa_pss_signed_id";
     return NULL;
 }
 
